@@ -120,7 +120,20 @@ def f_forall_int(ex, st, e, is_forall=True):
     pats = _triggers(ex, st, e, binders)
     if is_forall:
         return _b(smt.forall(vs, z3.Implies(f, body), pats))
-    return _b(smt.exists(vs, z3.And(f, body), pats))
+    _side(ex, st, vs, f, pats)
+    return _b(smt.exists(vs, body, pats))
+
+
+def _side(ex, st, vs, f, pats):
+    """type facts about an existential's witness are universally valid (they are guarded by the
+    conditions under which the value was read): assert them on the side instead of demanding a proof"""
+    if z3.is_true(z3.simplify(f)):
+        return
+    g = smt.forall(vs, f, pats)
+    if ex.quant_facts is not None:
+        ex.quant_facts.append(g)
+    else:
+        st.pc.append(g)
 
 
 def _triggers(ex, st, e, binders):
@@ -175,7 +188,8 @@ def f_forall_in(ex, st, e, is_forall=True, with_idx=False):
     rng = z3.And(0 <= k, k < Len(sq))
     if is_forall:
         return _b(smt.forall([k], z3.Implies(z3.And(rng, f), body), patterns=[At(sq, k)]))
-    return _b(z3.Exists([k], z3.And(rng, f, body)))
+    _side(ex, st, [k], z3.Implies(rng, f), [At(sq, k)])
+    return _b(smt.exists([k], z3.And(rng, body), [At(sq, k)]))
 
 
 def f_exists_in(ex, st, e):
@@ -192,7 +206,7 @@ def f_forall_obj(ex, st, e, is_forall=True):
     name = lam.args.args[0].arg
     o = z3.Int(f"{name}!{next(_uid)}")
     ty = Ty("obj", classes=cn.split("|"))
-    alive = ex.heap_get(st, "$alive")
+    alive = ex.named_heap(st, "$alive")
     dom = z3.And(alive[o], ex.is_instance(o, ty.classes))
     body, facts = _quant(ex, st, lam, [(name, SV("ref", o, ty))], [o], is_forall)
     f = z3.And([dom] + facts)
@@ -213,7 +227,8 @@ def f_forall_obj(ex, st, e, is_forall=True):
         if pats:
             return _b(smt.forall([o], z3.Implies(f, body), patterns=pats))
         return _b(smt.forall([o], z3.Implies(f, body), patterns=[alive[o]]))
-    return _b(z3.Exists([o], z3.And(f, body)))
+    _side(ex, st, [o], z3.Implies(dom, z3.And(facts) if facts else z3.BoolVal(True)), pats or [alive[o]])
+    return _b(smt.exists([o], z3.And(dom, body), pats))
 
 
 def f_exists_obj(ex, st, e):
@@ -245,6 +260,8 @@ def f_remove_at(ex, st, e):
 def f_remove1(ex, st, e):
     s, v = _seqarg(ex, st, e.args[0])
     x = ex.to_val(ex.ev1(e.args[1], st))
+    if not ex.mentions_bound(s) and not ex.mentions_bound(x):
+        st.pc.append(smt.index_fact(s, x))
     return SV("seq", RemoveAt(s, IndexOf(s, x)), Ty("seq", args=[ex.list_elem_ty(v)] if ex.list_elem_ty(v) else []))
 
 
@@ -269,6 +286,8 @@ def f_concat(ex, st, e):
 def f_index_of(ex, st, e):
     s, v = _seqarg(ex, st, e.args[0])
     x = ex.to_val(ex.ev1(e.args[1], st))
+    if not ex.mentions_bound(s) and not ex.mentions_bound(x):
+        st.pc.append(smt.index_fact(s, x))
     return SV("int", IndexOf(s, x), T("int"))
 
 
@@ -281,6 +300,8 @@ def f_nodup(ex, st, e):
 
 def f_sum_r(ex, st, e):
     s, v = _seqarg(ex, st, e.args[0])
+    if not ex.mentions_bound(s):
+        st.pc.append(smt.PSum(s, 0) == 0)
     return SV("val", Val.realv(smt.SumR(s)), T("num"))
 
 
@@ -292,12 +313,16 @@ def f_sum_i(ex, st, e):
 def f_psum(ex, st, e):
     s, v = _seqarg(ex, st, e.args[0])
     n = ex.as_int(ex.ev1(e.args[1], st), st, e)
+    if not ex.mentions_bound(s):
+        st.pc.append(smt.PSum(s, 0) == 0)
     return SV("val", Val.realv(smt.PSum(s, n)), T("num"))
 
 
 def f_psum_i(ex, st, e):
     s, v = _seqarg(ex, st, e.args[0])
     n = ex.as_int(ex.ev1(e.args[1], st), st, e)
+    if not ex.mentions_bound(s):
+        st.pc.append(smt.PSumI(s, 0) == 0)
     return SV("int", smt.PSumI(s, n), T("int"))
 
 
